@@ -479,8 +479,81 @@ func (r *Runner) state(res string, evs []node.Event) string {
 			r.fail("c05-cached-tip-wrong", fmt.Sprintf("cached tip %x at %d, database index ends with %x", []byte(t.Header.ID), t.Header.Height, top))
 		}
 	}
+	r.orderOracle()
 	r.prev = dump
 	return line
+}
+
+// orderOracle (C07, judged by C07NODE): every consensus API that orders a (maxHeightPrevoted, height) pair against
+// the node's chain uses the LIP-0014 order. Executer.Synced answers for the chain's CURRENT pair - maxHeightPrevoted
+// of the BFT store (the value after the tip was applied, which the tip header does not carry) and the tip height;
+// Executer.HeaderHasPriority answers for the pair carried by the header it is given. Evaluated after every step on a
+// grid of inputs around both pairs; on a version-0 (genesis) tip the rule is height <= tip and mhp <= tip height.
+func (r *Runner) orderOracle() {
+	n := r.n
+	if r.poisoned || n == nil || n.Exec == nil || n.Tip() == nil {
+		return
+	}
+	defer func() {
+		if x := recover(); x != nil {
+			r.fail("node-panic", fmt.Sprintf("Synced/HeaderHasPriority: %v", x))
+		}
+	}()
+	tip := n.Tip().Header
+	var chainMHP uint32
+	ok := false
+	func() {
+		defer func() { _ = recover() }()
+		chainMHP, _, _ = n.BFTHeights()
+		ok = true
+	}()
+	if !ok {
+		return
+	}
+	ref := func(refMHP, refHeight, h, mhp uint32) bool {
+		if tip.Version == 0 {
+			return h <= refHeight && mhp <= refHeight
+		}
+		return mhp < refMHP || (mhp == refMHP && h < refHeight)
+	}
+	around := func(vs ...uint32) []uint32 {
+		seen := map[uint32]bool{}
+		var out []uint32
+		for _, v := range vs {
+			for _, d := range []int64{-1, 0, 1} {
+				x := int64(v) + d
+				if x < 0 || x > 4294967295 || seen[uint32(x)] {
+					continue
+				}
+				seen[uint32(x)] = true
+				out = append(out, uint32(x))
+			}
+		}
+		return out
+	}
+	hs := around(tip.Height, chainMHP, tip.MaxHeightPrevoted, 0, 4294967295)
+	ms := around(chainMHP, tip.MaxHeightPrevoted, tip.Height, 0, 4294967295)
+	r.Notes["order-oracle-steps"]++
+	if chainMHP != tip.MaxHeightPrevoted {
+		r.Notes["order-oracle-tip-moved-mhp"]++
+	}
+	store := n.Store()
+	for _, m := range ms {
+		for _, h := range hs {
+			for _, mg := range []uint32{0, h} {
+				got, err := n.Exec.Synced(h, m, mg)
+				if want := ref(chainMHP, tip.Height, h, m); err != nil || got != want {
+					r.fail("c07-synced-not-lip14-order", fmt.Sprintf("chain at (maxHeightPrevoted=%d from the BFT store, height=%d; tip header version %d carries maxHeightPrevoted=%d): Synced(height=%d, maxHeightPrevoted=%d, maxHeightGenerated=%d) = %v (err=%v), the LIP-0014 order gives %v", chainMHP, tip.Height, tip.Version, tip.MaxHeightPrevoted, h, m, mg, got, err, want))
+					return
+				}
+				got, err = n.Exec.HeaderHasPriority(store, tip.Readonly(), h, m, mg)
+				if want := ref(tip.MaxHeightPrevoted, tip.Height, h, m); err != nil || got != want {
+					r.fail("c07-header-priority-not-lip14-order", fmt.Sprintf("header (maxHeightPrevoted=%d, height=%d, version %d): HeaderHasPriority(height=%d, maxHeightPrevoted=%d, maxHeightGenerated=%d) = %v (err=%v), the LIP-0014 order gives %v", tip.MaxHeightPrevoted, tip.Height, tip.Version, h, m, mg, got, err, want))
+					return
+				}
+			}
+		}
+	}
 }
 
 func (r *Runner) rememberTxs(b *blockchain.Block) {
